@@ -158,6 +158,7 @@ def merge_slices(reps):
 
 
 BASELINE_MARGIN_S = 1.5
+CONFIRM_BUDGET_MS = 45000     # confirmation pass: 30x the margin; > 30 s so that generator-level VCs get the full budget too
 
 
 def run_bounded(prop, tier, out, budget=None):
@@ -262,6 +263,44 @@ def main():
 
     # ---------------- proofs
     reps, meta = run_proofs(cfg.get("modules", []), timeout_ms, a.jobs)
+    # ---------------- confirmation pass for the baseline-regression rule
+    # An obligation that is proved comfortably in the committed baseline but came back `candidate` may be a code change - or
+    # z3 having an unlucky run (its quantifier instantiation is not deterministic across machines and loads).  Before it
+    # is reported, the function is verified again with a 45 s budget per obligation (30x the margin); only obligations that are still not proved
+    # then are reported.  On the unchanged tree this costs time only in the unlucky case; a real change pays it once.
+    suspects = {}
+    for r in reps:
+        for o in r.get("obligations", []):
+            if o["status"] == "candidate":
+                b = baseline.get(r["function"], {}).get(_generic(o["name"]))
+                if b is not None and b.get("other", 0) == 0 and b.get("proved", 0) > 0 and b.get("max_s", 1e9) <= BASELINE_MARGIN_S:
+                    suspects.setdefault((r.get("module"), r["function"]), set()).add(o["name"])
+    confirmations = {}
+    if suspects and timeout_ms < CONFIRM_BUDGET_MS:
+        for (modname, fname), names in suspects.items():
+            os.environ["PYVC_ONLY_OBLIGATIONS"] = json.dumps(sorted(names))
+            try:
+                reps2, _ = run_proofs([modname], CONFIRM_BUDGET_MS, a.jobs, only=[fname])
+            finally:
+                os.environ.pop("PYVC_ONLY_OBLIGATIONS", None)
+            for r2 in reps2:
+                if r2["function"] != fname:
+                    continue
+                st2 = {}
+                for o2 in r2.get("obligations", []):
+                    st2.setdefault(o2["name"], []).append(o2["status"])
+                for n in names:
+                    confirmations[(fname, n)] = st2.get(n, ["missing"])
+        for r in reps:
+            for o in r.get("obligations", []):
+                k = (r["function"], o["name"])
+                if o["status"] == "candidate" and k in confirmations:
+                    again = confirmations[k]
+                    if again and all(x == "proved" for x in again):
+                        o["status"], o["backend"] = "proved", (o.get("backend") or "") + "+confirmed-with-thorough-budget"
+                        o["reason"] = "quick-budget run was inconclusive; proved in the confirmation pass (45 s budget)"
+            if r["status"] == "failed" and not any(o["status"] in ("failed", "candidate") for o in r.get("obligations", [])):
+                r["status"] = "proved" if all(o["status"] == "proved" for o in r.get("obligations", [])) else "undecided"
     extras = []
     for spec in cfg.get("extra", []):
         try:
